@@ -62,6 +62,7 @@ type Prog struct {
 	origObj  map[types.Object]types.Object // renamed object → declared object
 	views    map[viewKey]*Func
 	viewSets map[string]*ViewSet
+	mutRecv  map[*types.Func]bool
 }
 
 // Func is a declared function, method or function literal with a body.
@@ -123,6 +124,9 @@ func Load(dir string, overlay map[string][]byte) (*Prog, error) {
 	}
 	sort.Slice(pkgs, func(i, j int) bool { return pkgs[i].PkgPath < pkgs[j].PkgPath })
 	p.Roots = pkgs
+	for _, pkg := range pkgs {
+		p.indexPkg(pkg, true)
+	}
 	if os.Getenv("SIALINT_NODETEMP") == "" {
 		// canonical spelling: no variables that merely name an intermediate value
 		for _, pkg := range pkgs {
@@ -130,13 +134,14 @@ func Load(dir string, overlay map[string][]byte) (*Prog, error) {
 				for _, d := range file.Decls {
 					if fd, ok := d.(*ast.FuncDecl); ok && fd.Body != nil {
 						p.detemp(pkg.TypesInfo, fd.Body)
+						if os.Getenv("SIALINT_NOLOOPS") == "" {
+							p.canonLoops(pkg.TypesInfo, fd.Body)
+							p.detemp(pkg.TypesInfo, fd.Body)
+						}
 					}
 				}
 			}
 		}
-	}
-	for _, pkg := range pkgs {
-		p.indexPkg(pkg, true)
 	}
 	return p, nil
 }
